@@ -38,7 +38,30 @@ func main() {
 		graph  = flag.String("graph", "vta", "call graph for cones: vta|cha")
 		merge  = flag.String("merge", "", "JSON file whose content is recorded under coverage.thorough_extras")
 	)
+	events := flag.Bool("events", false, "debug: print event slots at every emit site")
 	flag.Parse()
+	if *events {
+		p, err := Load(LoadOpts{Repo: *repo, GOARCH: *goarch, Tags: *tags})
+		if err != nil {
+			fmt.Println(err)
+			os.Exit(2)
+		}
+		for _, es := range EmitSites(p) {
+			fmt.Printf("== %s in %s\n", p.InstrPos(es.Call), funcDisplayName(es.Fn))
+			ev := ExtractEvent(p, NewResolver(p), es.Event, es.Call)
+			for _, n := range ev.Names() {
+				var parts []string
+				for _, c := range ev.EffectiveSrcs(p, n) {
+					parts = append(parts, c.String())
+				}
+				fmt.Printf("   %-28s %s\n", n, strings.Join(parts, " | "))
+			}
+			for _, u := range ev.Unknown {
+				fmt.Printf("   UNKNOWN %s\n", u)
+			}
+		}
+		return
+	}
 	if *dump != "" {
 		p, err := Load(LoadOpts{Repo: *repo, GOARCH: *goarch, Tags: *tags})
 		if err != nil {
